@@ -25,7 +25,9 @@ Definition TB (t : N) : N := 171 * 2 ^ 120 + t.          (* trace id "ab00..00" 
 Definition SB (i : N) : N := if i =? 0 then 0 else 14771806777775226880 + i.   (* span id 0xcd00000000000000 + i *)
 Definition svc_pool : list str :=
   [[65]; [66]; [67]; [99;104;101;99;107;111;117;116]; [100;98]; [97;117;116;104;45;115;118;99];
-   [88;49]; [88;50]; [89;49]; [89;50]; []].   (* A B C checkout db auth-svc X1 X2 Y1 Y2 "" *)
+   [88;49]; [88;50]; [89;49]; [89;50]; [];
+   [119;101;98;46;102;114;111;110;116]; [100;98;46;118;50]; [113;46;114]].
+   (* A B C checkout db auth-svc X1 X2 Y1 Y2 "" web.front db.v2 q.r (the last three: streams of aggregated views only) *)
 Definition sv (k : nat) : str := nth k svc_pool [].
 Definition nm (k : N) : str := if k <? 10 then [111; 112; 48 + k] else [111; 112; 48 + k / 10; 120].  (* "op<k>", k>=10: "op<k/10>x" *)
 Definition E1 (t i p : N) (s : nat) (n : N) (st en : N) (code : N) : span :=
